@@ -1,4 +1,5 @@
 import GomlVerif.Model.Syntax
+import GomlVerif.Model.FloatFmt
 /-
 Source-level meaning of the unified expression language: a definitional big-step
 interpreter with an observable world (stdout, reference store, spawned activations).
@@ -148,10 +149,9 @@ def goQuote (s : String) : String :=
       acc ++ "\\x" ++ String.singleton (hex (c.toNat / 16)) ++ String.singleton (hex (c.toNat % 16))
     else acc.push c) "" ++ "\""
 
-/-- Go `%g`-style shortest rendering is not reproduced here; floats are validated, not proved -/
-def showFloat (bits : Nat) (x : Float) : String :=
-  let _ := bits
-  toString x
+/-- "a readable decimal form": the shortest decimal that reads back as the same float, laid out as
+    Go's `%g` does (`Model/FloatFmt.lean`); floats are validated, not proved -/
+def showFloat (bits : Nat) (x : Float) : String := Goml.FloatFmt.goFormat bits x
 
 def utf8At (s : String) (i : Nat) : Option String :=
   let bs := s.toUTF8
@@ -212,6 +212,19 @@ def armMatches (lhs : Expr) (v : Val) : Bool :=
   | .prim p, v => (valEq (primVal p) v).getD false
   | _, _ => false
 
+/-- the enum a tag belongs to (`ImmTag { index, ty }` carries the enum type; `go/compile.rs`
+    finds the variant through it), so that a nullary constructor has the same value before and
+    after ANF turns it into a tag -/
+def tagTyName : Ty → String
+  | .enum n => n
+  | .app t _ => tagTyName t
+  | _ => ""
+
+/-- `&&` / `||` applied to a left operand that is not a boolean: no rule (the check happens
+    before the right operand is looked at, as in `if a { b } else { false }`) -/
+def logicalNonBool (op : BinOp) (a : Val) : Bool :=
+  (op == .and || op == .or) && !(match a with | .bool _ => true | _ => false)
+
 def bindParams : List String → List Val → Env → Env
   | x :: xs, v :: vs, ρ => bindParams xs vs ((x, v) :: ρ)
   | _, _, ρ => ρ
@@ -228,7 +241,7 @@ def eval (fuel : Nat) (P : Prog) (ρ : Env) (w : World) (e : Expr) : Res Val :=
     | some v => .ok v w
     | none => .ok (.fn x) w        -- a top-level function or builtin used as a value
   | .prim p => .ok (primVal p) w
-  | .tag idx _ => .ok (.enumV "" idx []) w
+  | .tag idx ty => .ok (.enumV (tagTyName ty) idx []) w
   | .constr c _ args =>
     match evalList fuel P ρ w args with
     | .fail f w => .fail f w
@@ -313,6 +326,7 @@ def eval (fuel : Nat) (P : Prog) (ρ : Env) (w : World) (e : Expr) : Res Val :=
       | .and, .bool false => .ok (.bool false) w
       | .or, .bool true => .ok (.bool true) w
       | _, _ =>
+        if logicalNonBool op a then .fail (.stuck "logical operator on a non-boolean") w else
         match eval fuel P ρ w r with
         | .fail f w => .fail f w
         | .ok b w =>
